@@ -1,10 +1,10 @@
 from vlib.core import Check, Family
-from checks.models import ALL_MODELS
+from checks.models import ALL_MODELS, TOL_BY_MODEL, EXTRA_ARGS
 
 CHECK = Check(
     "C14",
     props_modules=["OW.Props.C14"],
-    families=[Family("KHIST", rtol=1e-9, atol_scale=1e-12, args=["models=" + ",".join(ALL_MODELS), "n=8"])],
+    families=[Family("KHIST", rtol=1e-9, atol_scale=1e-12, tol_by_model=TOL_BY_MODEL, args=["models=" + ",".join(ALL_MODELS), "n=8"] + EXTRA_ARGS)],
     level="proof",
     trusted=[
         "the Lean kernel models are total functions of (parameters, states, inputs): purity is by construction there, so the property "
